@@ -149,7 +149,16 @@ def classify(diags, meta):
         if msg.startswith("aborting due to"):
             continue
         if any(m in msg for m in UNDECIDED_MARKERS):
-            undec.append(msg)
+            ufn = None
+            for sp in d.get("spans", []):
+                for ln in range(sp["line_start"], sp["line_end"] + 1):
+                    info = linemap[ln - 1] if 0 < ln <= len(linemap) else None
+                    if info and "fn" in info and "src" in info:
+                        ufn = (info["src"], info["fn"])
+                        break
+                if ufn:
+                    break
+            undec.append({"message": msg, "fn": ufn})
             continue
         if not any(msg.startswith(m) or m in msg for m in VERIFICATION_FAILURE):
             hard.append(d.get("rendered") or msg)
@@ -405,8 +414,6 @@ def decide(pid, pcfg, cfg, tier, seed, workdir, evidence):
     evidence["assumptions"] = cfg.get("global_assumptions", []) + pcfg.get("assumptions", [])
 
     # ---- verdict
-    if undec:
-        raise Undecided("resource limit: " + undec[0])
     known = load_known_findings()
     for kf in known.get("findings", []):
         if kf["property"] == pid:
@@ -425,6 +432,10 @@ def decide(pid, pcfg, cfg, tier, seed, workdir, evidence):
         return 1
     if kani_res and kani_res.get("undecided"):
         raise Undecided("kani: " + kani_res["undecided"])
+    my_fn_keys = set((f["src"], f["item"]) for f in my_fns)
+    undec_mine = [u for u in undec if u["fn"] is None or tuple(u["fn"]) in my_fn_keys]
+    if undec_mine:
+        raise Undecided("resource limit in " + str(undec_mine[0]["fn"]) + ": " + undec_mine[0]["message"])
     if deps:
         raise Undecided("a functional (determinism) clause this property's proof depends on failed: " + "; ".join(deps[0]["where"]))
     if not vac["ok"]:
